@@ -49,6 +49,9 @@ TABLE_OBLIGATIONS = [
     "Ural.Props.C12.port_splitter_pattern",
     "Ural.Props.C12.serialized_lru_splitter_pattern",
     "Ural.Props.C12.port_splitter_probes",
+    # the suffix-aware forward theorem now has the C08 model inside: its hand-written is_special_host is
+    # re-checked against the verdicts of the real SPECIAL_HOSTS_RE (regenerated) when Props/C13Psl is built
+    "Ural.Props.C08.special_hosts_probes",
 ]
 RULE = (
     "A case is one URL u against a batch of URLs v (<= 120) and suffix_aware; every ordered pair "
@@ -69,26 +72,51 @@ RULE = (
     "url_to_lru, string prefix of the cleaned serialisation, names-hypothesis. Non-trivial case = "
     "the batch contains a pair with v strictly under u and a pair not under u; distinct = distinct "
     "(u, batch, mode). Pair counts are in the distribution (pairs, pairs-under, pairs-prefix, ...). "
+    "Public-suffix-list families (cases with 'psl', right after the corpus; the corpus goes the same way): from the "
+    "REGENERATED list (ural.tld_data), for EVERY exception rule !e.par (8), EVERY wildcard rule *.par (164) and a "
+    "deterministic sample of the plain ASCII rules (every 60th multi-label / 200th single-label rule + com, co.uk, "
+    "github.io, fr, blogspot.com.au, s3.amazonaws.com; every 6th / 20th in thorough): the ancestors of the rule inside "
+    "the suffix, the wildcard parent, the excepted host, a child, a grandchild and an upper-case spelling of it, a fresh "
+    "sibling under the wildcard (a public suffix itself) with child and grandchild, every label that continues the "
+    "parent in another rule with a child; each host of a family as u (bare) against the whole family (bare and with "
+    "/a?q=1), both modes. For these cases NO answer of the real split_suffix is shipped to the model: op lru_pairs_psl "
+    "computes the stems with the model of suffix_trie.py on the trie built from the regenerated list "
+    "(Lru.pslSplitT) and also returns its split of every host, SameSuffixSplit, outsideSuffixT and dnsName — compared "
+    "with the real split_suffix answer and with the harness's own reading of the list (plain scan of the rules, "
+    "harness/props/C08.py psl_len). "
     "String-level tie (cases of kind 'parse', right after the corpus): EVERY URL a pair can be made of (corpus, "
     "mini universe, the 7,600-URL universe and its 'me@' userinfo variant: about 15,400 URLs, enumerated) goes through "
     "the model's own parser and the string-level pipeline of C12 (ops parse_url, lru_url: urlsplit(ensure_protocol(u)) "
     "+ accessors, lru_stems(u), url_to_lru(u), both modes) and must agree with CPython / ural."
 )
 EXHAUSTIVE = {
-    "quick": "all 82,944 ordered pairs of the 288-URL mini universe (2 schemes x 2 ports x hosts {com, a.com, www.a.com, co.uk, a.co.uk, uk} x paths {'', '/', '/a', '/a/b'} x extras {'', '?q=1', '#f'}) x suffix_aware in {False, True}",
-    "thorough": "all 82,944 ordered pairs of the 288-URL mini universe (as in quick) x suffix_aware in {False, True}; the 7,600-URL universe is sampled (about 3.6 million pairs)",
+    "quick": "all 82,944 ordered pairs of the 288-URL mini universe (2 schemes x 2 ports x hosts {com, a.com, www.a.com, co.uk, a.co.uk, uk} x paths {'', '/', '/a', '/a/b'} x extras {'', '?q=1', '#f'}) x suffix_aware in {False, True}; all ordered host pairs of the family of EVERY exception rule and EVERY wildcard rule of the regenerated public suffix list (and of about 150 plain rules) x {bare, with path and query} x suffix_aware in {False, True}",
+    "thorough": "all 82,944 ordered pairs of the 288-URL mini universe (as in quick) x suffix_aware in {False, True}; the public-suffix-list families as in quick with about 1,500 plain rules; the 7,600-URL universe is sampled (about 3.6 million pairs)",
 }
-TRUSTED = B.TRUSTED
+TRUSTED = [
+    t
+    if not t.startswith("split_suffix (public-suffix trie")
+    else "split_suffix: an abstract parameter of the theorems of Props/C13.lean (the driver op lru_pairs uses the answer of the "
+    "real split_suffix shipped with each case); for the suffix-aware forward law (Props/C13Psl.lean) it is the hand-written "
+    "Lean model of ural/classes/suffix_trie.py (Model/SuffixTrie.lean, proved equal to the publicsuffix.org algorithm over "
+    "the rule list: C08.walk_eq_psl) on the list regenerated from ural.tld_data — tied to the real split_suffix on every "
+    "host of the corpus and of the public-suffix-list families of this run (op lru_pairs_psl, nothing shipped)"
+    for t in B.TRUSTED
+]
 ASSUMPTIONS = [
-    "C08 clause used as hypothesis (SplitLaw): split_suffix parts re-join to the lower-cased host; checked on every URL of this run",
-    "reading: 'subdomain' = whole-label suffix of the dotted host between DNS names (an IPv4 literal / bracketed literal has no subdomains: hypothesis NamesOrEqual); 'extends / may add' presuppose that u has nothing later in the hierarchy host -> path -> query -> fragment; the forward law is demanded for u without userinfo (userinfo stems come last; the quantifier's universe has none); empty path stems aside = clean_trailing_path on both sides; suffix-aware converse compares hosts lower-cased",
+    "C08 clause used as hypothesis (SplitLaw) by the theorems with an abstract split_suffix: its parts re-join to the lower-cased host; checked on every URL of this run. The *_psl theorems assume nothing about split_suffix (it is the model of suffix_trie.py on the regenerated list: splitLaw_psl, sameSuffixSplit_of_outside); what ties them to the code is the per-run obligation that the real split_suffix answers like that model on every host of the public-suffix-list families and of the corpus (op lru_pairs_psl, a disagreement is a broken correspondence)",
+    "reading: 'subdomain' = whole-label suffix of the dotted host between DNS names (an IPv4 literal / bracketed literal has no subdomains: hypothesis NamesOrEqual); 'extends / may add' presuppose that u has nothing later in the hierarchy host -> path -> query -> fragment; the forward law is demanded for u without userinfo (userinfo stems come last; the quantifier's universe has none); empty path stems aside = clean_trailing_path on both sides; suffix-aware converse compares hosts lower-cased; 'DNS name', 'IP literal' and 'public suffix' are read by the oracle independently of ural (narrow special-host definition and the publicsuffix.org algorithm scanned over the regenerated list, harness/props/C08.py), never from is_special_host / split_suffix",
 ]
 UNPROVED = (
     "the *_string theorems state the laws for URL strings with the modelled parser inside (the Lean parser is compared "
-    "with CPython on every URL of the universe, not proved equal to it); forward direction with suffix_aware=True when the two hosts do not have the same public-suffix split "
-    "(ancestor inside the public suffix, e.g. http://uk vs http://a.co.uk): false by design (theorem "
-    "fullForwardSuffixAware_false, known finding KF-C13-1); the region is counted in the distribution as "
-    "'pairs-kf-region' and explored by the oracle only for the converse"
+    "with CPython on every URL of the universe, not proved equal to it); forward direction with suffix_aware=True when the ancestor's host lies INSIDE the public suffix of the "
+    "descendant's host and the two public suffixes differ (http://uk vs http://a.co.uk; http://kawasaki.jp vs "
+    "http://city.kawasaki.jp): false by design (theorems fullForwardSuffixAware_false, kf_inside_suffix_psl, known "
+    "finding KF-C13-1). The region is delimited by the public suffix LIST (outsideSuffixT / SameSuffixSplit of the "
+    "model of suffix_trie.py in Lean, the publicsuffix.org algorithm scanned over the regenerated list in the oracle), "
+    "not by the answers of the implementation's split_suffix; outside of it the law is proved "
+    "(stems_prefix_of_under_psl: DNS names without leading / trailing dot and without '%') and demanded by the oracle. "
+    "It is counted in the distribution as 'pairs-kf-region' and explored by the oracle only for the converse"
 )
 
 SCHEMES = ["http", "https"]
@@ -404,6 +432,15 @@ def label_host(h):
     return (not (h.startswith("[") or bool(is_special_host(h)))) or ("." not in h)
 
 
+def names_host(h):
+    """the oracle's own reading of "a DNS name, or a host without any dot" (hypothesis NamesOrEqual): not
+    bracketed, not `localhost` / a dotted quad by the oracle's narrow definition (harness/props/C08.py) —
+    independent of ural's is_special_host, whose verdicts `label_host` above mirrors for the comparison with
+    the model only (a SPECIAL_HOSTS_RE that takes `fab.de` for an IP literal must not move the pair out of
+    the oracle's reach: seed C13-3)"""
+    return (not (h.startswith("[") or P.oracle_special(h))) or ("." not in h)
+
+
 def no_userinfo(netloc):
     u, w = B.userinfo_of(netloc)
     return u == "" and w == ""
@@ -607,7 +644,7 @@ def pair_verdict(case, v):
     pre = is_prefix(cu, cv)
     hu, hv = spec_host_port(A[1])[0], spec_host_port(V[1])[0]
     # forward
-    if under_by(ident, A, V) and (hu == hv or (label_host(hu) and label_host(hv))):
+    if under_by(ident, A, V) and (hu == hv or (names_host(hu) and names_host(hv))):
         if sa and not forward_demanded(hu, hv):
             if case.get("strict") and not pre:
                 return "forward: %s lies under %s but stems %r are not a prefix of %r %s" % (v, case["u"], cu, cv, KF_MARK)
